@@ -605,6 +605,9 @@ ares_status_t ares_qcache_create(ares_rand_state *rand_state,
                                  unsigned int     max_ttl,
                                  ares_qcache_t  **cache_out);
 void          ares_qcache_flush(ares_qcache_t *cache);
+/* Bracket a completion callback that is handed a record owned by the cache */
+void          ares_qcache_callback_begin(ares_qcache_t *cache);
+void          ares_qcache_callback_end(ares_qcache_t *cache);
 ares_status_t ares_qcache_insert(ares_channel_t       *channel,
                                  const ares_timeval_t *now,
                                  const ares_query_t   *query,
